@@ -226,6 +226,12 @@ func applySimple(s fStmt, st *spState) {
 		case "-=":
 			st.vals[s.lhs] = "(- " + st.vals[s.lhs] + " " + r + ")"
 		}
+		// the assigned value must lie inside the refinement of the destination: the checker's obligation
+		hi := "1000"
+		if s.lhs == "this.f" {
+			hi = "100"
+		}
+		st.obl = append(st.obl, [2]string{"inside the destination's refinement: " + s.lhs + " " + s.op + " " + s.rhs.wuffs(), "(and (<= 0 " + st.vals[s.lhs] + ") (<= " + st.vals[s.lhs] + " " + hi + "))"})
 	}
 }
 
@@ -746,12 +752,12 @@ func runFacts(rc *runCtx) {
 	rc.states += reached
 	rc.obligations += nfacts + nobl
 	rc.discharged += proved + oblOK
-	rc.extra["slice_bounds_obligations_checked"] = nobl
+	rc.extra["bounds_obligations_checked"] = nobl
 	rc.extra["fact_programs"] = len(progs)
 	rc.extra["fact_programs_reaching_the_probe"] = reached
 	rc.extra["facts_checked"] = nfacts
 	rc.extra["facts_unparsed_skipped"] = skipped
-	fmt.Printf("facts: %d programs (%d reach the probe), %d facts checked, %d proved, %d false, %d skipped; %d accepted slice/index expressions, %d in bounds\n", len(progs), reached, nfacts, proved, nfacts-proved, skipped, nobl, oblOK)
+	fmt.Printf("facts: %d programs (%d reach the probe), %d facts checked, %d proved, %d false, %d skipped; %d accepted slice/index/assignment obligations, %d hold\n", len(progs), reached, nfacts, proved, nfacts-proved, skipped, nobl, oblOK)
 	if len(progs) > 0 {
 		rc.samples = append(rc.samples, sample{"kind": "fact program", "program": texts[len(texts)/2], "facts": results[len(texts)/2].Facts})
 	}
